@@ -40,6 +40,11 @@ INTSETS = {"plain": [0, 1, 2, 7, 3, 100], "neg": [-2, 1, 0, -5, 3, 8], "fuzzy": 
 DTYPES = [None, "Float", "Integer", "Positive Float", "Positive Integer", "Fuzzy"]
 
 
+# narrow integer results holding the extreme values of their type, among them the value NetCDF uses as the DEFAULT fill of the type (255, 65535, -32767):
+# a complete grid must come back complete (the values numpy.ma picks as its own marker for these types, 999999 wrapped to 63 / 16959, are left out)
+NARROW = {"u1": ("u1", [255, 0, 7, 200, 1, 254]), "u2": ("u2", [65535, 0, 1, 40000, 2, 65534]), "i2": ("i2", [-32767, 0, 5, 32767, -32768, 7])}
+
+
 def BOUND(tier):
     return "grids <=6 cells; f8/i4/i8; all missing placements for <=4 cells (6-cell grid: 16 placements, thorough 64); 6 DataTypes x 3 MissingValue options; writes of 1-2 results x all first-mask placements"
 
@@ -54,7 +59,7 @@ def cases(tier):
     yield ("templates",)
     yield ("chain",)
     for gi in range(len(GRIDS)):
-        for kinds in (("f",), ("i",), ("f", "f"), ("f", "i"), ("i", "f")):
+        for kinds in (("f",), ("i",), ("f", "f"), ("f", "i"), ("i", "f"), ("u1",), ("u2",), ("i2",), ("u1", "f")):
             yield ("write", gi, kinds, tier)
 
 
@@ -249,7 +254,10 @@ def _run_write(case):
                 masks = [m1] + ([m2] if len(kinds) > 1 else [])
                 arrays = []
                 for k, m in zip(kinds, masks):
-                    data = numpy.array(fvals if k == "f" else ivals, dtype=float if k == "f" else numpy.int64).reshape(grid)
+                    if k in NARROW:
+                        data = numpy.array(NARROW[k][1][:n], dtype=NARROW[k][0]).reshape(grid)
+                    else:
+                        data = numpy.array(fvals if k == "f" else ivals, dtype=float if k == "f" else numpy.int64).reshape(grid)
                     if m is None:
                         arrays.append(numpy.ma.MaskedArray(data))
                     else:
